@@ -584,5 +584,31 @@ def symcont_method(ex, recv, name, args, kwargs, node):
             if name == 'get':
                 return None
             raise SymRaise(KeyError, (key,), origin=ex.where(node))
+        if name == 'setdefault':
+            key = args[0]
+            default = args[1] if len(args) > 1 else None
+            if isinstance(key, SymVal):
+                raise Unsupported('symbolic key lookup in unknown dict')
+            for k_, v_ in reversed(recv.updates):
+                if k_ == 'update':
+                    raise Unsupported('setdefault after update() of an unknown dict')
+                if not isinstance(k_, SymVal) and k_ == key:
+                    return v_
+            known = recv.__dict__.setdefault('known', {})
+            if key not in known:
+                k = ex.choose(2, f'{key!r} in {recv.label}', ['present', 'absent'])
+                if k == 0:
+                    val = recv.val_factory(ex, f'{recv.label}[{key!r}]') if recv.val_factory is not None else SymObj(None, ex.fresh_name(f'{recv.label}[{key!r}]'), prov='param')
+                    known[key] = ('present', val)
+                else:
+                    known[key] = ('absent', None)
+                ex.push_undo(lambda: known.pop(key, None))
+            st_, v = known[key]
+            if st_ == 'present':
+                return v
+            recv.updates.append((key, default))
+            ex.record_write(recv, 'setitem', None, (key, default), kind='mutate')
+            ex.push_undo(lambda: recv.updates.pop())
+            return default
         raise Unsupported(f'dict.{name} on unknown dict')
     raise Unsupported(f'method {name} on {recv!r}')
